@@ -116,6 +116,29 @@ func RunGenerator(c GenCase) modeling.Mesh {
 		cube := primitives.Cube{Height: r, Width: float64(at(p, 1)) / 2, Depth: float64(at(p, 2)) / 2}
 		if flag {
 			cube.UVs = primitives.DefaultCubeUVs()
+		} else if f := at(p, 3); f >= 2 {
+			// the options object with exactly the members of the mask (GenShapes.tla)
+			all := primitives.DefaultCubeUVs()
+			m := f - 2
+			cube.UVs = &primitives.CubeUVs{}
+			if m&1 != 0 {
+				cube.UVs.Top = all.Top
+			}
+			if m&2 != 0 {
+				cube.UVs.Bottom = all.Bottom
+			}
+			if m&4 != 0 {
+				cube.UVs.Left = all.Left
+			}
+			if m&8 != 0 {
+				cube.UVs.Right = all.Right
+			}
+			if m&16 != 0 {
+				cube.UVs.Front = all.Front
+			}
+			if m&32 != 0 {
+				cube.UVs.Back = all.Back
+			}
 		}
 		if c.Gen == 3 {
 			return cube.Welded()
@@ -123,11 +146,21 @@ func RunGenerator(c GenCase) modeling.Mesh {
 		return cube.UnweldedQuads()
 	case 5:
 		cyl := primitives.Cylinder{Sides: at(p, 1), Height: r, Radius: 1, NoTop: at(p, 2)&1 == 1, NoBottom: at(p, 2)&2 == 2}
-		if flag {
-			cyl.UVs = &primitives.CylinderUVs{
-				Top:    &primitives.CircleUVs{Center: vector2.New(0.5, 0.5), Radius: 0.5},
-				Bottom: &primitives.CircleUVs{Center: vector2.New(0.5, 0.5), Radius: 0.5},
-				Side:   &primitives.StripUVs{Start: vector2.New(0., 0.), End: vector2.New(1., 0.), Width: 1},
+		if f := at(p, 3); f >= 1 {
+			// 1: every member; 2 + m: the options object with exactly the members of the mask (GenShapes.tla)
+			m := 7
+			if f >= 2 {
+				m = f - 2
+			}
+			cyl.UVs = &primitives.CylinderUVs{}
+			if m&1 != 0 {
+				cyl.UVs.Top = &primitives.CircleUVs{Center: vector2.New(0.5, 0.5), Radius: 0.5}
+			}
+			if m&2 != 0 {
+				cyl.UVs.Bottom = &primitives.CircleUVs{Center: vector2.New(0.5, 0.5), Radius: 0.5}
+			}
+			if m&4 != 0 {
+				cyl.UVs.Side = &primitives.StripUVs{Start: vector2.New(0., 0.), End: vector2.New(1., 0.), Width: 1}
 			}
 		}
 		return cyl.ToMesh()
